@@ -2,8 +2,10 @@
    byte access that panics exactly when Go does, little-endian readers,
    uint8 arithmetic, lorawan.DevAddr binary form, and the Command / Commands
    code, which is textually identical in the four packages
-   (clocksync.go:66-151 = multicastsetup.go:75-160 = fragmentation.go:61-146
-    = firmwaremanagement.go:70-159 at the snapshot; md5 of the normalised text agrees).
+   (type CommandPayload ... Commands.UnmarshalBinary in clocksync.go, multicastsetup.go,
+   fragmentation.go, firmwaremanagement.go: the md5 of the package-name-normalised text
+   agreed at the snapshot; since fix e758b58 firmwaremanagement's Commands.UnmarshalBinary
+   hands a shorter window to zero-length commands - the [window] parameter below).
 
    No proofs in this file. *)
 From Coq Require Import List NArith ZArith Bool.
